@@ -13,8 +13,17 @@ commits), over any linearly ordered field `α` — the same definitions the driv
   the bound, kernel index) aligned with `active_set`; the write-back through `active_set` returns
   each variable to its own sample for every permutation (not only involutions).
 
-Not proved (correspondence / oracle only): termination, the working-set selection rule, that the
-final point is a KKT point, the nu-variants.  IEEE rounding is outside these statements.
+* working-set selection (`select_working_set`, plain and nu form): whatever pair it returns consists
+  of two distinct active positions — the hypothesis of the feasibility invariant — and under
+  `nu_constraint` both carry the same label, so every class keeps its own sum (`e'α = ν n`);
+  the two multipliers of the nu dual are `r ± rho`;
+* publication glue: the regression fold `α_i - α_{i+m}`, support-vector count and `weighted_sum` pairing.
+
+* the whole main loop (`solve_loop_feasible`): selection, step, shrinking with its swaps, gradient
+  reconstruction and re-activation keep the point in the box with the initial `Σ y α`, for every fuel.
+
+Not proved (correspondence / oracle only): termination, optimality of the selected pair, that the
+final point is a KKT point.  IEEE rounding is outside these statements.
 -/
 namespace LinfaSpec.Props.C13
 open LinfaSpec.Smo
@@ -143,6 +152,77 @@ example : Aligned (α := ℚ) [-1, -1, -1] [1, 2, 1] [false, true, true] exSt :=
   have : k = 0 ∨ k = 1 ∨ k = 2 := by
     simp only [exSt, List.length_cons, List.length_nil] at hk; omega
   rcases this with h | h | h <;> subst h <;> norm_num [exSt, gf, gb, gn]
+
+
+/-- **the working pair `select_working_set` returns is legal** (plain and nu form, whatever the
+gradient, the kernel and the tolerance): two *distinct* positions inside the active range — exactly the
+hypothesis `ValidSteps` of `feasible_invariant`, so every step the solver's own selection triggers keeps
+the point feasible. -/
+theorem selected_pair_valid (e : Env α) (s : St α) (i j : Nat)
+    (h : selectWorkingSet e s = (i, j, false)) : i ≠ j ∧ i < s.nactive ∧ j < s.nactive :=
+  selectWorkingSet_valid e s i j h
+
+/-- the selection on the example state (all three variables active, none optimal): the maximal
+violator is position 0, its partner position 1 -/
+example : selectWorkingSet exEnv exSt = (0, 1, false) := by
+  decide +kernel
+
+
+/-- **feasibility is an invariant of the whole main loop of `solve`** — working-set selection (plain or
+nu form), the two-variable step, `do_shrinking(_nu)` with its swaps, `reconstruct_gradient` and the
+re-activation before the final check, for every fuel (iteration bound), kernel, tolerance and
+shrinking setting: the state the loop stops in is inside the box, has the initial `Σ y α` and the
+size of the problem.  Hypotheses = what `SolverState::new` establishes for a feasible start. -/
+theorem solve_loop_feasible (e : Env α) (shrinking : Bool) (fuel : Nat) (s : St α) (iter counter : Nat)
+    (hb : Box s) (hy : s.y.length = s.alpha.length) (hn : s.nactive ≤ s.alpha.length) :
+    Box (solveLoop e shrinking fuel s iter counter).1 ∧
+    ySum (solveLoop e shrinking fuel s iter counter).1 = ySum s ∧
+    (solveLoop e shrinking fuel s iter counter).1.alpha.length = s.alpha.length := by
+  have h := solveLoop_feas s.alpha.length (ySum s) e shrinking fuel s iter counter ⟨hb, hy, rfl, hn, rfl⟩
+  exact ⟨h.1, h.2.2.2.2, h.2.2.1⟩
+
+example : Box exSt ∧ exSt.y.length = exSt.alpha.length ∧ exSt.nactive ≤ exSt.alpha.length :=
+  ⟨exSt_box, by decide, by decide⟩
+
+/-- **`do_shrinking` (plain and nu form) keeps the point feasible**: it only permutes positions. -/
+theorem shrinking_preserves_feasible (e : Env α) (s : St α)
+    (hb : Box s) (hy : s.y.length = s.alpha.length) (hn : s.nactive ≤ s.alpha.length) :
+    Box (doShrinking e s) ∧ ySum (doShrinking e s) = ySum s := by
+  have h := doShrinking_feas s.alpha.length (ySum s) e s ⟨hb, hy, rfl, hn, rfl⟩
+  exact ⟨h.1, h.2.2.2.2⟩
+
+/-- **under `nu_constraint` both selected variables belong to one class** -/
+theorem nu_selected_pair_same_class (e : Env α) (s : St α) (i j : Nat)
+    (h : selectWorkingSetNu e s = (i, j, false)) :
+    i ≠ j ∧ i < s.nactive ∧ j < s.nactive ∧ gb s.y i = gb s.y j :=
+  selectWorkingSetNu_valid e s i j h
+
+/-- **a step on a pair of one class keeps the sum of either class** (the second equality constraint
+of the nu duals, `e'α = ν n`, split by class), for every kernel, gradient and step length. -/
+theorem nu_update_preserves_class_sums (e : Env α) (s : St α) (i j : Nat) (hij : i ≠ j)
+    (hi : i < s.alpha.length) (hj : j < s.alpha.length) (hb : Box s)
+    (hy : gb s.y i = gb s.y j) (c : Bool) :
+    classSum (update e s i j) c = classSum s c :=
+  update_classSum e s i j hij hi hj hb hy c
+
+/-- positions 0 and 2 of the example carry the same label -/
+example : gb exSt.y 0 = gb exSt.y 2 ∧ (0 : Nat) ≠ 2 ∧ 2 < exSt.alpha.length := by decide
+
+/-- **the two class multipliers of the nu dual are `r + rho` and `r - rho`** for the values
+`calculate_rho_nu` returns / stores (what `fit_nu` divides the coefficients by is their mean `r`). -/
+theorem rho_nu_split (e : Env α) (s : St α) :
+    (calculateRhoNu e s).2 + (calculateRhoNu e s).1 = rhoNuClass e s true ∧
+    (calculateRhoNu e s).2 - (calculateRhoNu e s).1 = rhoNuClass e s false :=
+  calculateRhoNu_split e s
+
+/-- **the regression fold** publishes `m` coefficients `α_i - α_{i+m}` from the `2 m` variables. -/
+theorem regression_fold (alpha : List α) (m : Nat) (hm : m < alpha.length) :
+    (foldRegression alpha m).length = m ∧
+    ∀ i, i < m → gf (foldRegression alpha m) i = gf alpha i - gf alpha (i + m) :=
+  foldRegression_spec alpha m hm
+
+example : foldRegression ([1, 0, 1/2, 0, 2, 0] : List ℚ) 3 = [1, -2, 1/2] := by
+  norm_num [foldRegression, gf, List.range_succ]
 
 /-- **the number of support vectors is the number of coefficients above the threshold**, and it
 is the number of rows `solve` selected. -/
